@@ -37,8 +37,9 @@ THEOREMS = [f"NauyacaVerif.C12.{t}" for t in
              "key_injective", "key_injective_chars", "export_import", "export_import_any_order")]
 EXTRACT: list[str] = []
 ASSUMPTIONS = [
-    "SQLite: a transaction is atomic and durable at commit(); a connection closed (or a process killed) without commit rolls back — exercised by the kill family (os._exit at every boundary, file reopened), not proved",
-    "tomllib.load(tomli_w.dump(d)) == d for string keys/values and integers (opaque; exercised by the roundtrip family with IPv6 literals, colons, quotes, control characters, non-ASCII, TOML metacharacters)",
+    "SQLite: a transaction is atomic and durable at commit(); a connection closed (or a process killed) without commit rolls back — exercised by the kill family (os._exit at every boundary, file reopened) and, for transactions larger than SQLite's page cache, by the bulk family (one late boundary per case), not proved",
+    "tomllib.load(tomli_w.dump(d)) == d for string keys/values and integers (opaque; exercised by the roundtrip family with IPv6 literals, colons, quotes, control characters, non-ASCII, TOML metacharacters, also in interpreters started under non-UTF-8 locales)",
+    "every operation opens its own connection (the model has no state between operations): exercised by the session family (histories through one store object, a step of each compared with the model from the observed state)",
     "fingerprints already in the store are well formed (they come from get_certificate_fingerprint or passed import validation); ports are 1..65535 for the round trip (import_toml refuses others)",
     "the conflict callback is modelled as an arbitrary function of the entry position returning update / skip / raise",
     "crash points are statement boundaries (execute / commit calls); a crash inside SQLite's commit is SQLite's contract",
